@@ -8,9 +8,16 @@
    engine state: [spec_size] = argument of the last `teinewgame`; [spec_position] = the position declared by the last
    `position` command (start position named there - standard of the size in force, or the TPS - with exactly the listed moves
    applied), unless a `teinewgame` came later (then none).  [exec e0 pre = Some e'] : Run gets through the lines [pre].
-   Proofs: coq/TeiFacts.v, coq/TeiTotal.v; non-vacuity examples: coq/TeiExamples.v. *)
-From Coq Require Import NArith ZArith List Bool.
+   Proofs: coq/TeiFacts.v, coq/TeiTotal.v; non-vacuity examples: coq/TeiExamples.v.
+
+   The CLIENT side (tei/client.go, tei/time.go; third wave): model coq/TeiClient.v - Client.NewGame, sendCommand's reading loop,
+   Player.TEIGetMove / GetMove, formatTime, over an arbitrary engine process [eng] (what it answers to each line written, when it
+   closes its pipes), and [tei_proc]: Engine.Run of Tei.v as that process.  Proofs: coq/TeiClientFacts.v (the lines as
+   strings.Fields reads them; the position line), TeiClientFacts2.v (the go line), TeiClientFmt.v, TeiClientFacts3.v (composition
+   client/engine; totality), non-vacuity on a real 14-ply game position: coq/TeiClientExamples.v.  Theorems C17_client_* below. *)
+From Coq Require Import NArith ZArith List Bool String.
 Require Import Board Move GameOver PtnMove Playtak Tps TeiBudget Tei TeiSpec TeiFacts TeiTotal TeiExamples.
+Require TeiClient TeiClientFacts TeiClientFacts2 TeiClientFacts3 TeiClientExamples Preserve1 TpsFacts5 TpsFacts6 PreserveEx Generated.Consts.
 Import ListNotations.
 
 (* The thinking time: for all clock values representable in time.Duration (int64 ns), strictly less than the remaining
@@ -143,3 +150,135 @@ Theorem C17_tei_run_total_lines :
   wf_engine SS e -> snd (fst (run basis SS mk_searcher search lines e)) <> Crashed.
 Proof. exact tei_run_total_full. Qed.
 Print Assumptions C17_tei_run_total_lines.
+
+(* ===================================== the client side (tei/client.go, tei/time.go) ===================================== *)
+
+(* The position line.  For every position on the hypotheses of C10's exact round trip (the Move invariant, reserves matching the
+   board, default tie-break flag, 0 <= ply < 2^63), the engine that receives the client's `teinewgame <size p>` and
+   `position tps <FormatTPS p>` lines - from whatever state - keeps running, prints nothing and holds p ITSELF (squares, ply,
+   reserves, hash), configured for p's size and without a searcher. *)
+Theorem C17_client_position_line_exact :
+  forall (SS : Type) (mk_searcher : Z -> SS) (search : SS -> option Z -> position -> SS * (list rmove * Z * Z * Z))
+         (e : engine SS) (p : position),
+  Preserve1.pos_ok p -> TpsFacts5.reserves_match_board p -> Move.black_wins_ties p = false -> (0 <= Move.move p < 2 ^ 63)%Z ->
+  let r1 := step Generated.Consts.gen_basis SS mk_searcher search e (TeiClient.newgame_line (Z.of_N (Move.size p))) in
+  let r2 := step Generated.Consts.gen_basis SS mk_searcher search (sr_eng r1) (TeiClient.position_line p) in
+  sr_status r1 = Running /\ sr_out r1 = [] /\ sr_status r2 = Running /\ sr_out r2 = [] /\
+  sr_eng r2 = {| e_mm := None; e_pos := Some p; e_size := Z.of_N (Move.size p) |}.
+Proof. exact TeiClientFacts.client_position_line_exact. Qed.
+Print Assumptions C17_client_position_line_exact.
+
+(* The go line.  When the client does not refuse (go_words = Some ws), the engine splits the line into the client's words and
+   the five durations it parses are the client's values as formatTime prints them: the time left until the deadline and the
+   four TimeControl values, each rounded DOWN to whole milliseconds and never below 0 (ms_round d = 1000000 * max 0 (d quot
+   1000000)); a value the client leaves out because it is 0 is 0 for the engine too. *)
+Theorem C17_client_go_line :
+  forall (dl : option Z) (tc : option TeiClient.tctl) (ws : list (list N)),
+  (forall d, dl = Some d -> TeiClientFacts2.int64 d) -> (forall t, tc = Some t -> TeiClientFacts2.tc_int64 t) ->
+  TeiClient.go_words dl tc = Some ws ->
+  exists args, ws = s_go :: args /\ fields (TeiClient.go_line ws) = ws /\
+    parse_go args targs0 =
+      Some {| movetime := match dl with Some d => TeiClientFacts2.ms_round d | None => 0%Z end;
+              wtime := match tc with Some t => TeiClientFacts2.ms_round (TeiClient.tc_white t) | None => 0%Z end;
+              btime := match tc with Some t => TeiClientFacts2.ms_round (TeiClient.tc_black t) | None => 0%Z end;
+              winc := match tc with Some t => TeiClientFacts2.ms_round (TeiClient.tc_winc t) | None => 0%Z end;
+              binc := match tc with Some t => TeiClientFacts2.ms_round (TeiClient.tc_binc t) | None => 0%Z end |}.
+Proof. exact TeiClientFacts2.client_go_line. Qed.
+Print Assumptions C17_client_go_line.
+
+(* ms_round: everything below 1 ms (negative values included) becomes 0; otherwise the value rounded down to a multiple of 1 ms. *)
+Theorem C17_client_ms_round : forall d : Z,
+  ((d < 1000000)%Z -> TeiClientFacts2.ms_round d = 0%Z) /\
+  ((0 <= d)%Z -> (d - 1000000 < TeiClientFacts2.ms_round d <= d)%Z /\ (TeiClientFacts2.ms_round d mod 1000000 = 0)%Z).
+Proof. exact TeiClientFacts2.ms_round_spec. Qed.
+Print Assumptions C17_client_ms_round.
+
+(* The client refuses with "Timeout too short" exactly when one of the four clock values is neither 0 nor at least 1 ms. *)
+Theorem C17_client_go_refused : forall (dl : option Z) (tc : option TeiClient.tctl),
+  TeiClient.go_words dl tc = None <->
+  exists t, tc = Some t /\ ~ (TeiClientFacts2.sayable (TeiClient.tc_white t) /\ TeiClientFacts2.sayable (TeiClient.tc_black t) /\
+                              TeiClientFacts2.sayable (TeiClient.tc_winc t) /\ TeiClientFacts2.sayable (TeiClient.tc_binc t)).
+Proof. exact TeiClientFacts2.go_words_none. Qed.
+Print Assumptions C17_client_go_refused.
+
+(* Composition.  A client in step with a running engine model (nothing unread in the pipe; sizes of the engine agree) calls
+   NewGame(size p) and TEIGetMove(p) - p live, on the hypotheses of C10's exact round trip; deadline and clocks int64 values that
+   can be said in milliseconds.  If the searcher answers live positions with a non-empty PV whose first move is legal and fits the
+   wire (Slides a uint32, 0 for placements: what every move generator produces; hypothesis searcher_ok of C17_tei_one_bestmove
+   plus that shape), then NewGame succeeds, TEIGetMove returns Ok m with m accepted by the move model in p (it is the searcher's
+   move, through FormatMove and ParseMove: C11), the engine holds exactly p, and client and engine are in step again. *)
+Theorem C17_client_server_move_legal :
+  forall (SS : Type) (mk_searcher : Z -> SS) (search : SS -> option Z -> position -> SS * (list rmove * Z * Z * Z))
+         (c : TeiClient.client (TeiClient.proc SS)) (p : position) (dl : option Z) (tc : option TeiClient.tctl),
+  TeiClientFacts3.searcher_ok_wire SS search -> TeiClientFacts3.in_sync SS c ->
+  Preserve1.pos_ok p -> TpsFacts5.reserves_match_board p -> Move.black_wins_ties p = false -> (0 <= Move.move p < 2 ^ 63)%Z ->
+  live p ->
+  (forall d, dl = Some d -> TeiClientFacts2.int64 d) -> (forall t, tc = Some t -> TeiClientFacts2.tc_int64 t) ->
+  TeiClient.go_words dl tc <> None ->
+  let eng := TeiClient.tei_proc Generated.Consts.gen_basis SS mk_searcher search in
+  exists c1 g, TeiClient.new_game (TeiClient.proc SS) eng c (Z.of_N (Move.size p)) = (c1, TeiClient.ROk g) /\
+  exists c2 m, TeiClient.tei_get_move (TeiClient.proc SS) eng c1 g p dl tc = (c2, TeiClient.ROk m) /\
+    legal Generated.Consts.gen_basis p (to_rmove m) /\ TeiClientFacts3.in_sync SS c2 /\
+    e_pos (TeiClient.p_eng (TeiClient.c_es c2)) = Some p.
+Proof. exact TeiClientFacts3.client_server_move_legal. Qed.
+Print Assumptions C17_client_server_move_legal.
+
+(* Totality.  TEIGetMove of the client model - against ANY engine process - panics only (1) as a dead player: the player's game
+   is not the client's current one, nothing is written and the client is unchanged; or (2) with index-out-of-range in
+   sendCommand's reading loop (`words[0]` of a line without a word), and then the position line had been written, the go line
+   was sayable, and the engine output met by the loop contained a blank line (empty or white space only).  Both are real:
+   TeiClientExamples.cx_dead_player_panics / cx_blank_line_panics, and the Go code does the same (C17 check, client sessions). *)
+Theorem C17_client_total :
+  forall (ES : Type) (eng : ES -> list N -> option (TeiClient.eresp ES)) (c : TeiClient.client ES) (pgid : Z) (p : position)
+         (dl : option Z) (tc : option TeiClient.tctl) (c' : TeiClient.client ES) (w : TeiClient.cpanic),
+  TeiClient.tei_get_move ES eng c pgid p dl tc = (c', TeiClient.RPanic w) ->
+  (w = TeiClient.PDeadPlayer /\ pgid <> TeiClient.c_gameid c /\ c' = c) \/
+  (w = TeiClient.PBlankLine /\ pgid = TeiClient.c_gameid c /\
+   exists c1 ws l, TeiClient.send_command ES eng c (TeiClient.position_line p) [] = (c1, TeiClient.ROk []) /\
+                   TeiClient.go_words dl tc = Some ws /\
+                   In l (TeiClientFacts3.pipe_after ES eng c1 (TeiClient.go_line ws)) /\ TeiClientFacts3.blank l).
+Proof. exact TeiClientFacts3.tei_get_move_panics. Qed.
+Print Assumptions C17_client_total.
+
+(* ... NewGame never panics nor blocks (Ok, or the write error); GetMove adds its own panic on every error of TEIGetMove. *)
+Theorem C17_client_new_game_total :
+  forall (ES : Type) (eng : ES -> list N -> option (TeiClient.eresp ES)) (c : TeiClient.client ES) (size : Z),
+  (exists c' g, TeiClient.new_game ES eng c size = (c', TeiClient.ROk g)) \/
+  (exists c', TeiClient.new_game ES eng c size = (c', TeiClient.RErr TeiClient.EWrite)).
+Proof. exact TeiClientFacts3.new_game_total. Qed.
+Print Assumptions C17_client_new_game_total.
+
+Theorem C17_client_get_move_panics :
+  forall (ES : Type) (eng : ES -> list N -> option (TeiClient.eresp ES)) (c : TeiClient.client ES) (pgid : Z) (p : position)
+         (dl : option Z) (c' : TeiClient.client ES) (w : TeiClient.cpanic),
+  TeiClient.get_move ES eng c pgid p dl = (c', TeiClient.RPanic w) ->
+  (w = TeiClient.PDeadPlayer /\ pgid <> TeiClient.c_gameid c) \/ (w = TeiClient.PBlankLine /\ pgid = TeiClient.c_gameid c) \/
+  (exists e, w = TeiClient.PGetMove e /\ TeiClient.tei_get_move ES eng c pgid p dl None = (c', TeiClient.RErr e)).
+Proof. exact TeiClientFacts3.get_move_panics. Qed.
+Print Assumptions C17_client_get_move_panics.
+
+(* ... and against the engine model (which never prints a line without a word) a live player's TEIGetMove never panics, whatever
+   the searcher answers and whatever the position and the clocks are. *)
+Theorem C17_client_tei_no_panic :
+  forall (basis : list N) (SS : Type) (mk_searcher : Z -> SS) (search : SS -> option Z -> position -> SS * (list rmove * Z * Z * Z))
+         (c : TeiClient.client (TeiClient.proc SS)) (p : position) (dl : option Z) (tc : option TeiClient.tctl)
+         (c' : TeiClient.client (TeiClient.proc SS)) (w : TeiClient.cpanic),
+  Forall (fun l => ~ TeiClientFacts3.blank l) (TeiClient.c_buf c) ->
+  TeiClient.tei_get_move (TeiClient.proc SS) (TeiClient.tei_proc basis SS mk_searcher search) c (TeiClient.c_gameid c) p dl tc
+    <> (c', TeiClient.RPanic w).
+Proof. exact TeiClientFacts3.client_tei_no_panic. Qed.
+Print Assumptions C17_client_tei_no_panic.
+
+(* Non-vacuity: the position after the 14-ply 5x5 game of PreserveEx.v satisfies every hypothesis of the composition theorem
+   (with a searcher that answers b2 there), and the conclusion holds of it. *)
+Theorem C17_client_nonvacuous :
+  Preserve1.pos_ok PreserveEx.p14 /\ TpsFacts5.reserves_match_board PreserveEx.p14 /\ live PreserveEx.p14 /\
+  TeiClient.position_line PreserveEx.p14 = str "position tps 2,x3,1/x4,1C/x4,2S/x4,22221/2,x4 1 8" /\
+  (let eng := TeiClient.tei_proc Generated.Consts.gen_basis unit TeiClientExamples.cx_mk TeiClientExamples.cx_search in
+   exists c1 g, TeiClient.new_game (TeiClient.proc unit) eng TeiClientExamples.cx_c0 (Z.of_N (Move.size PreserveEx.p14)) = (c1, TeiClient.ROk g) /\
+   exists c2 m, TeiClient.tei_get_move (TeiClient.proc unit) eng c1 g PreserveEx.p14 (Some TeiClientExamples.cx_dl) (Some TeiClientExamples.cx_tc)
+                  = (c2, TeiClient.ROk m) /\
+     legal Generated.Consts.gen_basis PreserveEx.p14 (to_rmove m) /\ TeiClientFacts3.in_sync unit c2 /\
+     e_pos (TeiClient.p_eng (TeiClient.c_es c2)) = Some PreserveEx.p14).
+Proof. exact TeiClientExamples.cx_all. Qed.
+Print Assumptions C17_client_nonvacuous.
